@@ -3,3 +3,7 @@ def fill(chk, NA):
         'complete enumeration of bounded value languages (all strings <=6/7 over a sign/digit/point alphabet, every year-month-day and clock combination, every code point) compared with recognisers written from the statement',
         'trusted: calendar.monthrange, the character tables transcribed from the statement; values longer than the bounds are not explored',
         'exhaustive enumeration of a finite input language against a reference recogniser', 'E1', 'DESIGN.md 3/C13')
+    chk('C14', 'model_checking',
+        'complete product of every syntax note in every shipped map x all segment lengths x all presence patterns, judged by the five X12 definitions; both the note evaluator and the element errors of segment validation are compared',
+        'level 2 is differential against the same node with the note removed; trusted: my transcription of the five definitions',
+        'exhaustive enumeration of a finite configuration x input product on the real code', 'E1', 'DESIGN.md 3/C14')
